@@ -240,5 +240,9 @@ def run(M, rep, tier, only=None):
 
     # ---------------------------------------------------------------- R8
     n = stateless.run(M, rep, R8, only_classes={"DataFrame", "H5DataSet"}, only_modules={"nixio.hdf5.h5dataset", "nixio.data_frame"})
+    R10 = rep.rule("C16.R10", "a write addressed to row 0 is a row write: the hdf5 layer decides 'no region given' by identity with None",
+                   floor=2, technique="decision atoms on the region parameter of H5DataSet.read_data/write_data (shared with C06.R1)")
+    from . import c06
+    c06.layer_region_rule(M, rep, R10)
     if not n:
         rep.ok(R8, "DataFrame/H5DataSet", "no instance attribute or module table is written outside the constructors")
